@@ -60,6 +60,11 @@ def execute_run(desc: dict, deviations: dict[int, str] | None = None, *, want: t
 
     workdir = tempfile.mkdtemp(prefix="simrun-")
     os.chdir(workdir)
+    # Hypothesis fixes its home directory (example database, caches) from the cwd *at import*; a run stands for a
+    # freshly started process in its own working directory, so its Hypothesis home is ./.hypothesis of that directory
+    from hypothesis.configuration import set_hypothesis_home_dir
+
+    set_hypothesis_home_dir(os.path.join(workdir, ".hypothesis"))
     try:
         return _execute_run(desc, deviations, want)
     finally:
